@@ -252,7 +252,7 @@ XRAY_ELEMENTS = ("H", "C", "N", "n", "O", "Si", "Fe", "Cu", "Gd", "Au", "U")
 COMPOUNDS = [("Er2O3", 8.6), ("H2O", 1.0), ("D2O", 1.11), ("SiO2", 2.2), ("Gd2O3", 7.4), ("B4C", 2.52), ("Lu2O3", 9.4)]
 
 
-def digest_table(pt, T, order, groups=None):
+def digest_table(pt, T, order, groups=None, calcs=True):
     """[(group, hash)] over every served value of every atom of table T, read in one of two orders."""
     def rd(fn):
         try:
@@ -272,7 +272,7 @@ def digest_table(pt, T, order, groups=None):
             out.append(rd(lambda: el.neutron))
             for iso in (list(el)[::-1] if order else list(el)):
                 out.append(rd(lambda: (iso.neutron, getattr(iso, "nuclear_spin", None))))
-        if T is pt.elements:
+        if T is pt.elements and calcs:
             for c, d in (COMPOUNDS[::-1] if order else COMPOUNDS):
                 out.append(rd(lambda: pt.neutron_scattering(c, density=d, wavelength=4.0)))
                 out.append(rd(lambda: pt.neutron_sld(c, density=d, wavelength=0.3)))
@@ -294,7 +294,7 @@ def digest_table(pt, T, order, groups=None):
             out.append(rd(lambda: sorted(k for k in vars(el.xray) if k not in ("element", "_table"))))
         out.append(rd(lambda: T.Fe.ion[2].xray.f0(1.0)))
         out.append(rd(lambda: T.Fe[56].ion[2].xray.f0(1.0)))
-        if T is pt.elements:
+        if T is pt.elements and calcs:
             for c, d in COMPOUNDS[:3]:
                 out.append(rd(lambda: pt.xray_sld(c, density=d, energy=8.0)))
         return out
@@ -389,7 +389,7 @@ def snippet(hist, ev, evs):
 class Oracle(object):
     def __init__(self, model, acc, can_obs, can_dig):
         self.model, self.acc, self.can_obs, self.can_dig = model, acc, can_obs, can_dig
-        self.evs = dict((e.name, e) for e in model.events())
+        self.evs = dict((e.name, e) for e in list(LazyModel().events()) + list(model.events()))
 
     def __call__(self, key, res, second=False):
         acc = self.acc
